@@ -277,7 +277,10 @@ Inductive op : Type :=
 | OUpsert (n : string) (total status ctime : Z) (p : dparams) (ptime liq : Z) (allowed : bool) (fa : Z)
     (* ProposalUpsertDapp through the gov flow; [allowed]: a controller can propose it; [fa]: the pool fee READ BACK
        from the stored record afterwards -- the model follows it, the correspondence compares it with [upsert_fee] *)
-| KForce (n : string) (status ptime liq : Z).            (* keeper SetDapp: status / PremintTime / LiquidationStart *)
+| KForce (n : string) (status ptime liq : Z)             (* keeper SetDapp: status / PremintTime / LiquidationStart *)
+| OMintIssue (u den : string) (amt : Z) (reg : bool) (owner : string) (rate cap tsup : Z)
+    (* MsgMintIssueTx; the token's registry entry as read by the harness: registered, owner, fee rate (Dec), supply cap, recorded supply *)
+| OBankSend (u to den : string) (amt : Z).                (* bank SendCoins between accounts *)
 
 (* ---------------------------------------------------------------- other layer2 messages through the module account *)
 Definition burn_tx (st : state) (u den : string) (amt : Z) (registered : bool) : outcome state :=
@@ -294,6 +297,24 @@ Definition mint_ft (c : config) (st : state) (u : string) (fresh : bool) : outco
   (* `info := tk.GetTokenInfo(ctx, denom); if info.Denom != ""`: for a new denomination info is nil -- the
      message panics and can never succeed *)
   if negb fresh then Err "token already registered" else Panic "nil token info".
+(* MsgMintIssueTx *)
+Definition mint_issue (st : state) (u den : string) (amt : Z) (reg : bool) (owner : string) (rate cap tsup : Z) : outcome state :=
+  if String.eqb den UKEX then Err "bond denom not mintable" else
+  if negb reg then Panic "nil token info" else
+  do l1 <- (if String.eqb u owner then Ok (led st) else
+            do m <- dmul_int rate amt;
+            let fee := trunc_int m in
+            if fee <? 0 then Panic "negative coin amount" else
+            if 0 <? fee then (if String.eqb owner "" then send u MOD UKEX fee (led st) else send u owner UKEX fee (led st))
+            else Err "not able to mint coins without fee");
+  if amt <? 0 then Panic "negative coin amount" else
+  if (0 <? cap) && (cap <? tsup + amt) then Err "cannot exceed token cap" else
+  do l2 <- mint den amt l1;
+  do l3 <- send MOD u den amt l2;
+  Ok (mkState (now st) (dapps st) (bonds st) l3).
+Definition bank_send (st : state) (u to den : string) (amt : Z) : outcome state :=
+  do l <- send u to den amt (led st); Ok (mkState (now st) (dapps st) (bonds st) l).
+
 (* the operator records are kept as pseudo balances: account "#vf/"+dApp, denom = operator *)
 Definition VF (n : string) : string := ("#vf/" ++ n)%string.
 Definition join_verifier (c : config) (st : state) (u interx n : string) : outcome state :=
@@ -340,6 +361,8 @@ Definition step (v : variant) (c : config) (st : state) (o : op) : outcome state
   | OJoinVerifier u interx n => join_verifier c st u interx n
   | OUpsert n total status ctime p ptime liq allowed fa => upsert v st n total status ctime p ptime liq allowed fa
   | KForce n status ptime liq => force st n status ptime liq
+  | OMintIssue u den amt reg owner rate cap tsup => mint_issue st u den amt reg owner rate cap tsup
+  | OBankSend u to den amt => bank_send st u to den amt
   | OCreate u priv foreign n amt p => create v c st u priv foreign n amt p
   | OBond u n foreign amt => bond c st u n foreign amt
   | OReclaim u n foreign amt => reclaim st u n foreign amt
@@ -366,7 +389,8 @@ Definition is_user_op (o : op) : bool :=
 Definition is_msg_op (o : op) : bool :=
   match o with
   | OCreate _ _ _ _ _ _ | OBond _ _ _ _ | OReclaim _ _ _ _ | OTick _ | OLpMsg _ _ _ _ _ _
-  | OSetCfg _ | OBurnTx _ _ _ _ | OMintFt _ _ | OJoinVerifier _ _ _ | OUpsert _ _ _ _ _ _ _ _ _ => true
+  | OSetCfg _ | OBurnTx _ _ _ _ | OMintFt _ _ | OJoinVerifier _ _ _ | OUpsert _ _ _ _ _ _ _ _ _
+  | OMintIssue _ _ _ _ _ _ _ _ | OBankSend _ _ _ _ => true
   | _ => false end.
 (* the configuration in force after an operation *)
 Definition cfg_after (c : config) (o : op) : config := match o with OSetCfg c' => c' | _ => c end.
